@@ -370,7 +370,7 @@ def run(ctx):
     ctx.prove(gens=["unicode"])
     model_ok = not any(b["name"].startswith("extraction") for b in ctx.broken)
     rng, tier = ctx.rng, ctx.tier
-    n = 600 if tier == "quick" else 20000
+    n = 600 if tier == "quick" else 60000
     cases, lines = [], []
     kinds = {}
     for i in range(n):
@@ -397,7 +397,7 @@ def run(ctx):
             if m.startswith("!"):
                 disagreements.append((case, m, "n/a"))
                 continue
-            mouts = m.split("|counters=")[0].split("|")
+            mouts = m.split("|counters=")[0].split("|") if case["ops"] else []      # no operation: nothing to compare
             mcnt = m.split("|counters=")[1]
             iouts = case["results"]
             icnt = ",".join("%d:%d" % kv for kv in sorted(case["counters"].items()))
